@@ -52,6 +52,7 @@ let runners : (string * (z list -> z list)) list = [
   "vec_intcast", run_vec_intcast;
   "segidx", run_segidx;
   "cpq", run_cpq;
+  "cpqf", run_cpqf;
   "rw", run_rw;
   "simple", run_simple;
   "allot", run_allot;
